@@ -3,5 +3,5 @@ CONSTANTS
   PatAlpha = {42, 63, 97, 46}
   HostAlpha = {97, 46, 47, 0, 42}
   MaxPat = 4
-  MaxHost = 4
+  MaxHost = 3
 INVARIANTS ThreeDefinitionsAgree CleanLaws SubstLaw
